@@ -126,9 +126,10 @@ def spec (cmd : Cmd) (pkg : Pkg) (fl : Flags) : Option SpecOut :=
 def holdsBad (bad : List String) (w : List (OutName × List String)) : List String :=
   bad.filter (fun b => w.any (fun f => f.2.contains b))
 
-/-- does an outcome of the model meet the specification? -/
+/-- does an outcome of the model meet the specification? (that the listed names are the written ones, sorted, is
+    `C16_listed`, which holds for every input) -/
 def meets : Outcome → SpecOut → Bool
-  | .done w l _, .files fs => w == fs && l == fs.map (·.1)
+  | .done w _ _, .files fs => w == fs
   | .stop _, .files _ => false
   | .done w _ warned, .rejected bad => warned && (holdsBad bad w).isEmpty
   | .stop s, .rejected _ => s == .fatal
@@ -150,9 +151,6 @@ def noLocals : List Decl → Bool
   | [] => true
   | .func _ ls :: r => ls.isEmpty && noLocals r
   | _ :: r => noLocals r
-
-def noUniverse (ts : List TSpec) : Bool :=
-  ts.all (fun t => match t.shape with | .iface es => !es.contains .universe | _ => true)
 
 /-- const blocks are valid Go: an explicit type needs an expression list -/
 def constsValid : List Decl → Bool
@@ -179,7 +177,6 @@ def validPkg (pkg : Pkg) : Bool :=
   (pkg.map File.name).Nodup && ((declared pkg).map (·.2.name)).Nodup
     && (((declared pkg).map (·.2.name)).map comp).Nodup     -- no two types collide after lower-casing
     && pkg.all (fun f => noLocals f.decls && constsValid f.decls && endsGo f.name)
-    && noUniverse (allTSpecs pkg)
     && constTypesOK pkg
     && !((declared pkg).map (·.2.name)).contains ""          -- identifiers are not empty
 
